@@ -34,7 +34,7 @@ structure Inv (s : St) : Prop where
   early   : early s = true → s.rl = .idle ∧ (s.run = .idle → s.fsm = .new) ∧ (s.run ≠ .idle → s.fsm = .booting)
   fresh   : (s.run = .idle ∨ s.run = .entered) → s.insts = []
   released : post s = true → s.rl ≠ .probing → ∀ i, isOpenAt s i = false
-  serving : (s.run = .booted ∨ s.run = .select) → (s.rl = .idle ∨ s.rl = .entered) → s.fsm ≠ .error → listening s = true
+  serving : (s.run = .booted ∨ s.run = .select) → (s.rl = .idle ∨ s.rl = .entered ∨ ∃ r b, s.rl = .cbReturned r b) → s.fsm ≠ .error → listening s = true
   closedAtBoot : s.rl = .toBoot → ∀ i, isOpenAt s i = false
 
 theorem inv_init : Inv init := by
@@ -411,7 +411,7 @@ theorem post_afterSel {s : St} (h : post s = true) : afterSel s = true := by
 
 theorem inv_step_rl {s s' : St} {a : Act} (h : Inv s) (hs : step s a = some s')
     (ha : match a with
-      | .rlEnter | .rlConfig _ _ | .rlStopOld _ | .rlBootBegin _ | .rlProbeOk | .rlProbeFail _ => True
+      | .rlEnter | .rlConfig _ _ | .rlAfterCb | .rlStopOld _ | .rlBootBegin _ | .rlProbeOk | .rlProbeFail _ => True
       | _ => False) : Inv s' := by
   cases a <;> simp only at ha
   case rlEnter =>
@@ -457,9 +457,28 @@ theorem inv_step_rl {s s' : St} {a : Act} (h : Inv s) (hs : step s a = some s')
       have hmu := h.muRl (by rw [hc]; simp)
       have hnp : s.run ≠ .probing := not_probing_of_mu h (by rw [hmu]; simp)
       have hne := not_early_of_rl h (by rw [hc]; simp)
-      have toIdle : ∀ (f : Fsm), (f ≠ .error → s.fsm ≠ .error) →
-          Inv { s with fsm := f, rl := RlPc.idle, mu := none, reloads := s.reloads + 1 } := by
-        intro f hf
+      cases hs
+      refine ⟨h.one, h.srvLt, h.cancel, by simp [hmu], by intro hr; exact absurd hr hnp, h.muFree, by simp, ?_, h.fresh, ?_, ?_,
+        by simp⟩
+      · intro he
+        have : early s = true := he
+        rw [hne] at this; cases this
+      · intro hp _
+        exact h.released hp (by rw [hc]; simp)
+      · intro hr _ hfe
+        exact h.serving hr (Or.inr (Or.inl hc)) hfe
+  case rlAfterCb =>
+    simp only [step] at hs
+    have key : ∀ r b, s.rl = .cbReturned r b →
+        (∀ (f : Fsm), (f ≠ .error → s.fsm ≠ .error) →
+          Inv { s with fsm := f, rl := RlPc.idle, mu := none, reloads := s.reloads + 1 }) ∧
+        (∀ c, Inv { s with cfg := some c, rl := RlPc.stopOld }) := by
+      intro r b hc
+      have hmu := h.muRl (by rw [hc]; simp)
+      have hnp : s.run ≠ .probing := not_probing_of_mu h (by rw [hmu]; simp)
+      have hne := not_early_of_rl h (by rw [hc]; simp)
+      constructor
+      · intro f hf
         refine ⟨h.one, h.srvLt, h.cancel, by simp, by intro hr; exact absurd hr hnp, by simp, by simp, ?_, h.fresh, ?_, ?_, by simp⟩
         · intro he
           have : early s = true := he
@@ -467,23 +486,30 @@ theorem inv_step_rl {s s' : St} {a : Act} (h : Inv s) (hs : step s a = some s')
         · intro hp _
           exact h.released hp (by rw [hc]; simp)
         · intro hr _ hfe
-          exact h.serving hr (Or.inr hc) (hf hfe)
+          exact h.serving hr (Or.inr (Or.inr ⟨r, b, hc⟩)) (hf hfe)
+      · intro c
+        refine ⟨h.one, h.srvLt, h.cancel, by simp [hmu], by intro hr; exact absurd hr hnp, h.muFree, by simp, ?_, h.fresh, ?_, by simp,
+          by simp⟩
+        · intro he
+          have : early s = true := he
+          rw [hne] at this; cases this
+        · intro hp _
+          exact h.released hp (by rw [hc]; simp)
+    split at hs
+    · rename_i c same hc
+      obtain ⟨toIdle, toStop⟩ := key _ _ hc
       split at hs
-      · split at hs
-        · cases hs
-          apply toIdle
-          intro hfe hse
-          simp [tr, hse, allowed] at hfe
-        · cases hs
-          refine ⟨h.one, h.srvLt, h.cancel, by simp [hmu], by intro hr; exact absurd hr hnp, h.muFree, by simp, ?_, h.fresh, ?_, by simp,
-            by simp⟩
-          · intro he
-            have : early s = true := he
-            rw [hne] at this; cases this
-          · intro hp _
-            exact h.released hp (by rw [hc]; simp)
       · cases hs
-        exact toIdle _ (fun hfe => absurd rfl hfe)
+        apply toIdle
+        intro hfe hse
+        simp [tr, hse, allowed] at hfe
+      · cases hs
+        exact toStop c
+    · rename_i r b _ hc
+      obtain ⟨toIdle, _⟩ := key _ _ hc
+      cases hs
+      exact toIdle _ (fun hfe => absurd rfl hfe)
+    · cases hs
   case rlStopOld inTime =>
     simp only [step] at hs
     split at hs
@@ -706,6 +732,7 @@ theorem inv_step {s s' : St} {a : Act} (h : Inv s) (hs : step s a = some s') : I
     · cases hs
   case rlEnter => exact inv_step_rl h hs trivial
   case rlConfig => exact inv_step_rl h hs trivial
+  case rlAfterCb => exact inv_step_rl h hs trivial
   case rlStopOld => exact inv_step_rl h hs trivial
   case rlBootBegin => exact inv_step_rl h hs trivial
   case rlProbeOk => exact inv_step_rl h hs trivial
